@@ -1,33 +1,33 @@
 #!/bin/bash
-# usage: tools/seed_verify.sh <seed-id e.g. C10-A> <src dir with patch.diff demo.py README.md> <worktree> [props to check...]
-# 1. confirms in the scratch worktree that the patch keeps the test suite green and that the demo fails with / passes without it
+# usage: tools/seed_verify.sh <seed-id e.g. C10-A> <src dir with patch.diff demo.py README.md> <props to check...>
+# Uses a private scratch worktree of /repo (never /repo itself):
+# 1. confirms that the patch keeps the test suite green and that the demo fails with / passes without it
 # 2. stores it under /verif/seeded/<seed-id>/
-# 3. applies it to /repo, runs the given checks (no evidence), reverts /repo
+# 3. runs the given checks against the patched scratch tree (no evidence written) and records the outcome
 set -u
-ID=$1; SRC=$2; WT=$3; shift 3
+ID=$1; SRC=$2; shift 2
 DST=/verif/seeded/$ID
-mkdir -p $DST
+WT=/tmp/seedrun/$ID
+mkdir -p $DST /tmp/seedrun
+rm -rf $WT; git -C /repo worktree prune; git -C /repo worktree add -q --detach $WT HEAD || exit 3
 cd $WT || exit 3
-git checkout -q -- . ; rm -rf junit .coverage
-git apply --check $SRC/patch.diff || { echo "PATCH DOES NOT APPLY"; exit 3; }
+git apply --check $SRC/patch.diff || { echo "PATCH DOES NOT APPLY"; git -C /repo worktree remove --force $WT; exit 3; }
 /venv/bin/python $SRC/demo.py > $DST/demo_clean.log 2>&1; CLEAN=$?
 git apply $SRC/patch.diff
 /venv/bin/python $SRC/demo.py > $DST/demo_patched.log 2>&1; PATCHED=$?
-BASE=$(/verif/tools/run_baseline.sh $WT 2>&1 | tail -3)
-git checkout -q -- . ; rm -rf junit .coverage
+if [ "${SKIP_BASELINE:-0}" = "1" ]; then BASE="skipped"; else BASE=$(/verif/tools/run_baseline.sh $WT 2>&1 | tail -2); git apply $SRC/patch.diff 2>/dev/null; fi
+git diff --stat | tail -1
 echo "demo clean exit=$CLEAN patched exit=$PATCHED"; echo "$BASE"
 cp $SRC/patch.diff $SRC/demo.py $DST/; cp $SRC/README.md $DST/README.agent.md 2>/dev/null
 RES=""
-cd /repo && git apply $SRC/patch.diff || { echo "does not apply to /repo"; exit 3; }
 for P in "$@"; do
-  OUT=$(cd /verif && ./check $P --no-evidence 2>&1 | tail -400)
+  OUT=$(cd /verif && PB_BSS_REPO=$WT VERIF_REPLAY_ROOT=/tmp/seedrun/replays_$ID ./check $P --no-evidence 2>&1 | tail -400)
   RC=$(echo "$OUT" | tail -1 | sed 's/.*-> exit //')
   NV=$(echo "$OUT" | grep -c '^VIOLATION')
-  FIRST=$(echo "$OUT" | grep 'failed obligation' | head -3)
+  FIRST=$(echo "$OUT" | grep 'failed obligation' | head -3 | cut -c1-260)
   echo "check $P: exit $RC, $NV VIOLATION lines"; echo "$FIRST"
   echo "$OUT" > $DST/check_$P.log
   RES="$RES $P:exit$RC:viol$NV"
 done
-cd /repo && git checkout -q -- . 
 echo "{\"id\": \"$ID\", \"demo_exit_clean\": $CLEAN, \"demo_exit_patched\": $PATCHED, \"baseline\": \"$(echo $BASE | tr '\n' ' ' | tr '"' "'")\", \"checks\": \"$RES\"}" > $DST/verify.json
-git -C /repo status --short | head -3
+cd /; git -C /repo worktree remove --force $WT; rm -rf /tmp/seedrun/replays_$ID
